@@ -22,6 +22,7 @@ RULE = ("histories of 120-400 (quick) / up to 2000 (thorough) completed top-leve
         "futures/registers/entries, arrays) on ONE connection with a flush after every k-th operation (k in 1..8), "
         "plus deep-nesting programs (nesting 5..10, up to the register budget)."
         ' EPR histories include create/recv contexts, fidelity-constrained keeps whose first attempt is rejected (retry loop with clean-up code) and Array.undefine(). '
+        ' Plus a finished register-hungry construct (6-12 nested or explicit-register loops) followed in the same flush segment by an operation with several literal operands. '
         "Non-trivial = the history completed >= "
         "40 operations on one connection and executed at least one body; distinct = distinct (history, script).")
 ASSUMPTIONS = [
